@@ -198,6 +198,14 @@ def c03_layouts(tier, seed):
             L = mk(W, (0, 4, 4, 2), T_uint(4), explicit=True, tag=f"explicit stride == width, legacy stride syntax on u{W}")
             L.legacy = True
             Ls.append(L)
+    # arrays whose elements are range lists (C04 owns the gather/scatter order; here: element
+    # addressing and bounds checks), first listed range NOT at bit 0, in both list orders
+    for (W, ty, rs, arr) in [(16, T_uint(2), [(1, 1), (3, 1)], (3, 4, True)), (32, T_uint(4), [(8, 2), (12, 2)], (2, 16, True)),
+                              (32, T_uint(4), [(1, 1), (3, 1), (5, 1), (7, 1)], (4, 8, True)), (64, T_int(8), [(36, 4), (4, 4)], (4, 8, True)),
+                              (128, T_uint(12), [(70, 6), (3, 6)], (5, 12, True)), (24, T_uint(3), [(2, 1), (10, 1), (18, 1)], (6, 1, True)),
+                              (8, T_uint(2), [(1, 1), (5, 1)], (3, 1, True)), (65, T_uint(5), [(30, 3), (1, 2)], (4, 8, True))]:
+        Ls.append(Layout(W, [Field("a", ty, rs, arr, "rw")], tag=f"array of range lists, first range at bit {rs[0][0]}, on u{W}"))
+        Ls.append(Layout(W, [Field("a", ty, list(reversed(rs)), arr, "rw")], tag=f"array of range lists (reversed), first range at bit {rs[-1][0]}, on u{W}"))
     if tier != "quick":
         for W in (32, 64, 128):
             sh = array_shapes(W, max_w=W // 2, max_K=16)
@@ -447,9 +455,17 @@ def enum_corpus(tier, seed):
         full = len(set(discrs)) == (1 << bits) if bits <= 16 else False
         if exhaustive == "auto":
             exhaustive = "true" if full else [None, "false"][len(Es) % 2]
+        # declaration order is part of the shape: ascending, descending, shuffled (deterministic)
+        order = "asc"
+        if cfg is None and len(discrs) > 1:
+            order = ["asc", "desc", "shuffled"][len(Es) % 3]
+            if order == "desc":
+                discrs = list(reversed(discrs))
+            elif order == "shuffled":
+                random.Random(len(Es) * 31 + bits).shuffle(discrs)
         vs = [(f"V{i}", d, (cfg[i] if cfg else None)) for i, d in enumerate(discrs)]
         e = EnumDef("E", bits, vs, exhaustive, legacy)
-        e.tag = tag or f"u{bits} {len(discrs)} variants exhaustive={exhaustive}"
+        e.tag = tag or f"u{bits} {len(discrs)} variants exhaustive={exhaustive} declared {order}"
         Es.append(e)
 
     # N = 1, 2: every non-empty subset
@@ -1009,7 +1025,28 @@ def plan_c11(tier, seed):
             u = Unit(f"l{n:05d}", L.decl() + "\n" + C11_PRE, hs, {"layout": L, "sig": L.sig(), "tag": L.tag, "valid": True}, pre)
             us.append(u)
             n += 1
-    for k in (0, len(us) // 2, len(us) - 1):
+    # declarations that reach above bit N-1 (rule-invalid): if the macro accepts one, the same step
+    # harness decides whether hidden state can be created
+    cand = []
+    for N in ([7, 9, 20, 24, 33, 65] if tier == "quick" else [n for n in ALL_ARB if n >= 6][::5] + [20, 24]):
+        st = storage_bits(N)
+        cand.append(Layout(N, [Field("f", T_bool(), [(N, 1)], None, "rw"), Field("lo", T_uint(2), [(0, 2)], None, "rw")], tag=f"bool at bit {N} of u{N} (single-bit syntax)"))
+        if st - N >= 2:
+            cand.append(Layout(N, [Field("f", ty_for_width(st - N, "u1"), [(N, st - N)], None, "rw")], tag=f"field in the hidden storage bits of u{N}"))
+            cand.append(Layout(N, [Field("f", T_uint(2), [(N - 1, 2)], None, "rw")], tag=f"u2 straddling bit {N - 1}/{N} of u{N}"))
+            cand.append(Layout(N, [Field("f", T_uint(3), [(0, 1), (N - 1, 1), (N + 1, 1)], None, "rw")], tag=f"list with a single-bit item above bit {N - 1} of u{N}"))
+            cand.append(Layout(N, [Field("f", T_uint(2), [(0, 1), (2, 1)], (2, N - 2, True), "rw")], tag=f"array of lists with gaps reaching bit {N} of u{N}"))
+            cand.append(Layout(N, [Field("f", T_uint(2), [(N - 3, 2)], (2, 2, False), "rw")], tag=f"[u2;2] ending at bit {N} of u{N}"))
+    for L in cand:
+        assert not L.rule_valid(), L.tag
+        hs = [h_c11_base(L)] + [h_c11_step(L, f) for f in L.fields if f.writable]
+        for h in hs:
+            h.role = "field-above-exposed-width"
+        pre = f"pub type VStorage = u{L.storage};\n" + VRES
+        us.append(Unit(f"l{n:05d}", L.decl() + "\n" + C11_PRE, hs, {"layout": L, "sig": L.sig(), "tag": L.tag, "valid": False, "role": "field-above-exposed-width"}, pre))
+        n += 1
+    nvalid = len(us) - len(cand)
+    for k in (0, nvalid // 2, nvalid - 1):
         L = us[k].meta["layout"]
         f = [f for f in L.fields if f.writable][0]
         h = h_c11_step(L, f)
@@ -1256,6 +1293,10 @@ def c09_candidates(tier):
             if lo >= 0 and (K - 1) * w + lo + w <= st:
                 add(N, [Field("f", T_uint(w), [(lo, w)], (K, w, False), "rw")], "array-beyond-exposed-width", f"[u2;2] ending at bit {N} of u{N} (inside the storage)")
             add(N, [Field("f", T_bool(), [(N - 1, 1)], (2, 1, False), "rw")], "array-beyond-exposed-width", f"[bool;2] at bits {N - 1},{N} of u{N}")
+            if N >= 6 and N + 1 < st:
+                # array of range lists with gaps whose last element pokes above N (inside the storage)
+                add(N, [Field("f", T_uint(2), [(0, 1), (2, 1)], (2, N - 2, True), "rw")], "array-of-lists-beyond-exposed-width", f"array of lists {{0,2}} stride {N - 2} K=2 reaching bit {N} of u{N}")
+                add(N, [Field("f", T_uint(3), [(0, 1), (2, 1), (4, 1)], (3, (N - 3) // 2, True), "rw")] if 2 * ((N - 3) // 2) + 4 >= N and 2 * ((N - 3) // 2) + 4 < st else [Field("f", T_uint(2), [(1, 1), (3, 1)], (2, N - 3, True), "rw")], "array-of-lists-beyond-exposed-width", f"array of lists with gaps reaching above bit {N - 1} of u{N}")
     add(24, [Field("hi", T_uint(8), [(24, 8)], None, "rw")], "non-array-field-beyond-base-width", "u24 with a field at 24..=31 (property text example)")
     # arrays beyond the storage width
     for W in nat:
@@ -1420,6 +1461,32 @@ def c14_candidates(tier, seed):
         add(W, [Field("a", ty_for_width(W - 1, "u1"), [(0, W - 1)], None, "rw")], "incomplete-no-default", f"top bit uncovered, no default on u{W}")
         add(W, [Field("a", ty_for_width(W - 1, "u1"), [(1, W - 1)], None, "rw"), Field("r0", T_bool(), [(0, 1)], None, "r")], "incomplete-no-default", f"bit 0 only readable, no default on u{W}")
         add(W, [Field("a", T_uint(2), [(0, 2)], (W // 3, 3, True), "rw")], "incomplete-no-default", f"array with gap bits, no default on u{W}")
+    # full-width fields (the 128-bit mask special case among them): alone, and with a second writer
+    for W in NATIVE_BASES + [7, 24, 65, 127]:
+        add(W, [Field("a", T_uint(W), [(0, W)], None, "rw")], "", f"single full-width field, complete, on u{W}")
+        add(W, [Field("a", T_uint(W), [(0, W)], None, "rw"), Field("b", T_bool(), [(W // 2, 1)], None, "rw")], "overlapping-scalar-fields", f"full-width field + a bool inside it, with default, on u{W}", default=D(W))
+        add(W, [Field("b", T_bool(), [(0, 1)], None, "rw"), Field("a", T_uint(W), [(0, W)], None, "w")], "overlapping-scalar-fields", f"bool then full-width field, no default, on u{W}")
+        if W >= 4:
+            h = W // 2
+            add(W, [Field("a", ty_for_width(h, "u1"), [(0, h)], (2, h, False), "rw")], "", f"two-element array covering u{W} completely")
+            add(W, [Field("a", ty_for_width(h, "u1"), [(0, h)], (2, h, False), "rw"), Field("t", T_bool(), [(W - 1, 1)], None, "w")], "overlapping-array-and-scalar", f"complete array + top bit writer, default, on u{W}", default=D(W))
+    # systematic small family: arrays of two single-bit items {0, d}, stride s, K elements, on u8/u16 with a
+    # default: collisions between neighbouring AND non-neighbouring elements, and collision-free interleavings
+    for W in (8, 16):
+        for d in range(1, 7):
+            for st in range(1, 5):
+                for K in (2, 3, 4):
+                    if (K - 1) * st + d < W:
+                        f = Field("a", T_uint(2), [(0, 1), (d, 1)], (K, st, True), "rw")
+                        Ltmp = Layout(W, [f], default=D(W))
+                        role = "" if Ltmp.builder_expected() else "colliding-array-of-lists"
+                        if W == 16 and (d + st + K) % 3:
+                            continue
+                        add(W, [f], role, f"array of lists {{0,{d}}} stride {st} K={K} on u{W}", default=D(W))
+    # three-item lists with a far collision
+    add(16, [Field("a", T_uint(3), [(0, 1), (1, 1), (6, 1)], (3, 3, True), "rw")], "colliding-array-of-lists", "items {0,1,6} stride 3 K=3: element 0 and 2 share bit 6", default=D(16))
+    add(32, [Field("a", T_uint(4), [(0, 2), (12, 2)], (4, 4, True), "rw")], "colliding-array-of-lists", "ranges {0..1,12..13} stride 4 K=4: element 0 and 3 collide", default=D(32))
+    add(32, [Field("a", T_uint(4), [(0, 2), (12, 2)], (3, 4, True), "rw")], "", "ranges {0..1,12..13} stride 4 K=3: no collision", default=D(32))
     return C
 
 
@@ -1427,7 +1494,8 @@ def plan_c14(tier, seed):
     us = []
     cands = c14_candidates(tier, seed)
     # plus the builder-eligible random layouts of C13 (eligible => offered) and C12's overlapping ones (not eligible)
-    extra = [(L, "") for L in c13_layouts("quick", 0)[: (25 if tier == "quick" else 200)]]
+    c13 = c13_layouts("quick", 0)
+    extra = [(L, "") for L in (c13[:25] + c13[-8:] if tier == "quick" else c13_layouts("thorough", seed)[:200] + c13[-8:])]
     extra += [(L, "overlapping-random-layout") for L in c12_layouts("quick", 0) if not L.builder_expected()][: (12 if tier == "quick" else 60)]
     for i, (L, role) in enumerate(cands + extra):
         if not L.rule_valid() or not any(f.writable for f in L.fields):
@@ -1461,17 +1529,30 @@ def c10_candidates(tier, seed):
     """[(EnumDef, role)]; rule validity comes from EnumDef.rule_valid()"""
     C = []
 
-    def add(bits, discrs, exhaustive, role, tag, cfg=None, legacy=False):
+    def add1(bits, discrs, exhaustive, role, tag, cfg=None, legacy=False):
         vs = [(f"V{i}", d, (cfg[i] if cfg else None)) for i, d in enumerate(discrs)]
         e = EnumDef("E", bits, vs, exhaustive, legacy)
         e.tag = tag
         C.append((e, role))
 
+    def add(bits, discrs, exhaustive, role, tag, cfg=None, legacy=False):
+        add1(bits, discrs, exhaustive, role, tag, cfg, legacy)
+        # the same set in other declaration orders (largest first / largest in the middle followed by
+        # a drop and a rise / reversed): validation must not depend on the order
+        if cfg is None and len(discrs) >= 3 and bits <= (3 if tier == "quick" else 4):
+            d = list(discrs)
+            mx = max(d)
+            rest = [x for x in d if x != mx]
+            add1(bits, [mx] + rest, exhaustive, role, tag + " [largest first]")
+            add1(bits, rest[:1] + [mx] + rest[1:], exhaustive, role, tag + " [largest second]")
+            if tier != "quick" or exhaustive in ("true", None):
+                add1(bits, list(reversed(d)), exhaustive, role, tag + " [reversed]")
+
     sizes = [1, 2, 3, 4, 8] + ([5, 7] if tier != "quick" else [])
     for N in sizes:
         n = 1 << N
         full = list(range(n))
-        for ex in ("true", "false", None, "conditional"):
+        for ex in (("true", "false", None, "conditional") if (N < 8 or tier != "quick") else ("true", None)):
             add(N, full, ex, "all-values-present", f"u{N}: all {n} values, exhaustive={ex}")
             add(N, full[:-1], ex, "one-value-missing", f"u{N}: top value missing, exhaustive={ex}")
             add(N, full[1:], ex, "one-value-missing", f"u{N}: zero missing, exhaustive={ex}")
